@@ -214,6 +214,14 @@ def _consume(T, data: bytes) -> bytes:
             data = _consume(T._item_type, data)
         return data
     # struct
+    if T.__name__ == "EmberKeyStruct":
+        # 36 bytes (bitmask 2, type 1, key 16, two counters 4+4, sequence 1, partner 8); firmware that keeps keys in secure
+        # storage sends a 4-byte id instead of the key, i.e. exactly 24 bytes - nothing in between is a key structure
+        if len(data) >= 36:
+            return data[36:]
+        if len(data) == 24:
+            return b""
+        raise _Short()
     if "deserialize" in T.__dict__ or any(f.requires is not None for f in T.fields):
         raise _Unknown()
     for f in T.fields:
